@@ -1,10 +1,10 @@
 ------------------------------- MODULE TpTrace -------------------------------
-(* Trace validation: an execution of the real thread pool (harness/tp_drv.c, hooks + link-time
-   wrappers) is a behaviour of the specification.  One trace action per logged event:
-       IsEv(name) /\ <logged fields bound> /\ SpecAction(args)
-   Every event is logged, so the search is linear; all invariants of the specification are evaluated
-   in every state of the trace-induced behaviour.  Executions are concatenated with Reset events. *)
-EXTENDS TpBcast, Json, IOUtils
+(* Trace validation: an execution of the real thread pool (harness/tp_drv.c: guarded hooks + link-time
+   wrappers) must be a behaviour of the specification TpMsg + TpBcast + TpLife.  One trace action per
+   logged event:   IsEv(name) /\ <logged fields bound> /\ SpecAction(args).
+   Every event is logged, so the search is linear; the invariants are evaluated in every state of the
+   trace-induced behaviour.  Executions are concatenated with Reset events. *)
+EXTENDS TpLife, Json, IOUtils
 
 Tr == ndJsonDeserialize(IOEnv.TRACE)
 
@@ -12,77 +12,117 @@ Procs == Workers \cup (100..140)
 VARIABLES l,         \* next trace line to consume
           lastRan,   \* [Procs -> index into ran of the latest callback entered on that thread, 0 = none]
           ucb        \* user messages whose harness callback has been observed
-tvars == <<msgVars, bVars, l, lastRan, ucb>>
+tvars == <<msgVars, bVars, lVars, l, lastRan, ucb>>
 
 IsEv(e) == l <= Len(Tr) /\ Tr[l].e = e /\ l' = l + 1
 E == Tr[l]
 
 BInit0 == /\ rec = << >> /\ inProxy = [p \in Procs |-> 0]
           /\ pend = [p \in Procs |-> NoCall] /\ plain = << >>
-TInit == /\ InitMsg("RUNNING") /\ BInit0 /\ l = 1
+TInit == /\ InitMsg("STOP") /\ BInit0 /\ InitLife /\ l = 1
          /\ lastRan = [p \in Procs |-> 0] /\ ucb = {}
 
 NoteRan == lastRan' = IF Len(ran') > Len(ran) THEN [lastRan EXCEPT ![ran'[Len(ran')].on] = Len(ran')] ELSE lastRan
-Keep == UNCHANGED <<lastRan, ucb>>
+Keep  == UNCHANGED <<lastRan, ucb>>
 KeepB == UNCHANGED bVars
+KeepL == UNCHANGED lVars
 KeepM == UNCHANGED <<msgVars, lastRan, ucb>>
 
 InstOfMsg(m) == CHOOSE i \in DOMAIN inst : inst[i].u = 1000 + m
 
-TEnter     == IsEv("send.enter") /\ Enter(E.i, E.t, E.d, E.f, "?", E.u, E.s) /\ Keep
+(* ---- messages (TpMsg) ---- *)
+TEnter     == IsEv("send.enter") /\ Enter(E.i, E.t, E.d, E.f, "?", E.u, E.s) /\ Keep /\ KeepL
               /\ NoteEnter(E.i, E.t, E.u) /\ UNCHANGED <<inProxy, pend, plain>>
-TDirect    == IsEv("send.direct") /\ Direct(E.i, E.v) /\ NoteRan /\ UNCHANGED ucb /\ KeepB
-TRunning   == IsEv("send.running") /\ ReadState(E.i, TRUE) /\ Keep /\ KeepB
-TNotRun    == IsEv("send.notrunning") /\ ReadState(E.i, FALSE) /\ Keep /\ KeepB
-TWrite     == IsEv("wr") /\ Keep /\ KeepB
+TDirect    == IsEv("send.direct") /\ Direct(E.i, E.v) /\ NoteRan /\ UNCHANGED ucb /\ KeepB /\ KeepL /\ PoolAlive
+TRunning   == IsEv("send.running") /\ ReadState(E.i, TRUE) /\ Keep /\ KeepB /\ KeepL
+TNotRun    == IsEv("send.notrunning") /\ ReadState(E.i, FALSE) /\ Keep /\ KeepB /\ KeepL
+TWrite     == IsEv("wr") /\ Keep /\ KeepB /\ KeepL
               /\ IF E.rc = 0 THEN WriteOk(E.i, E.c) ELSE WriteFail(E.i, E.rc, E.inj = 1)
-TReturn    == IsEv("ret.send") /\ Keep /\ KeepB
+TReturn    == IsEv("ret.send") /\ Keep /\ KeepB /\ KeepL
               /\ \E i \in DOMAIN inst : inst[i].u = 1000 + E.m
               /\ Return(InstOfMsg(E.m), E.rc)
-TRead      == IsEv("rd") /\ Keep /\ KeepB /\ Read(E.t, E.q, E.cnt)
+TRead      == IsEv("rd") /\ Keep /\ KeepB /\ KeepL /\ Read(E.t, E.q, E.cnt)
               /\ \A k \in 1..E.cnt : batch'[E.t][k][1] = E.is[k]       \* rig's shadow FIFO agrees
-TRun       == IsEv("recv.run") /\ UNCHANGED ucb /\ KeepB
+TRun       == IsEv("recv.run") /\ UNCHANGED ucb /\ KeepB /\ KeepL
+              /\ PoolAlive                                               \* (C11) no callback after destroy returned
               /\ batch[E.t] # << >>
               /\ LET h == Head(batch[E.t]) IN
                     h[2] = E.q /\ inst[h[1]].u = E.u /\ inst[h[1]].c = E.c    \* the packet at the head, nothing else
               /\ Run(E.t) /\ NoteRan
 (* the harness' own callback reports who it is: must be the callback the spec just started there *)
-TUserCb    == IsEv("cb") /\ UNCHANGED <<msgVars, lastRan>> /\ KeepB
+TUserCb    == IsEv("cb") /\ UNCHANGED <<msgVars, lastRan>> /\ KeepB /\ KeepL
               /\ lastRan[E.t] # 0
               /\ LET r == ran[lastRan[E.t]] IN
                     /\ inst[r.i].u = 1000 + E.m /\ r.arg = E.arg /\ r.on = E.t
                     /\ r.how = "queued" => E.cur = E.t
               /\ E.m \notin ucb /\ ucb' = ucb \cup {E.m}
-TQuiesce   == IsEv("quiesce") /\ Drained /\ C05Safety /\ AllCompleted /\ C10Inv /\ UNCHANGED <<msgVars, lastRan, ucb>> /\ KeepB
-TReset     == IsEv("Reset") /\ ResetMsg("RUNNING") /\ lastRan' = [p \in Procs |-> 0] /\ ucb' = {}
+TQuiesce   == IsEv("quiesce") /\ Drained /\ C05Safety /\ AllCompleted /\ C10Inv
+              /\ UNCHANGED <<msgVars, lastRan, ucb>> /\ KeepB /\ KeepL
+TReset     == IsEv("Reset") /\ ResetMsg("STOP") /\ lastRan' = [p \in Procs |-> 0] /\ ucb' = {}
               /\ rec' = << >> /\ inProxy' = [p \in Procs |-> 0] /\ pend' = [p \in Procs |-> NoCall] /\ plain' = << >>
+              /\ phase' = "none" /\ hstart' = [t \in Threads |-> 0] /\ hstop' = [t \in Threads |-> 0]
+              /\ made' = {} /\ exited' = {} /\ joined' = {} /\ ptid0' = {} /\ shut' = 0 /\ tcfail' = FALSE
 
 (* ---- broadcasts (TpBcast) ---- *)
-TCallB     == IsEv("call.bsend") /\ Call(E.t, "bsend", E.m, E.f, E.nthr) /\ KeepM
-TCallCb    == IsEv("call.cbsend") /\ Call(E.t, "cbsend", E.m, E.f, E.nthr) /\ KeepM
-TRecInit   == (IsEv("bsend.init") \/ IsEv("cbsend.init")) /\ RecInit(E.a, E.t, E.v) /\ KeepM
-TProxy     == (IsEv("sync.proxy") \/ IsEv("obo.proxy")) /\ KeepM
+TCallB     == IsEv("call.bsend") /\ Call(E.t, "bsend", E.m, E.f, E.nthr) /\ KeepM /\ KeepL
+TCallCb    == IsEv("call.cbsend") /\ Call(E.t, "cbsend", E.m, E.f, E.nthr) /\ KeepM /\ KeepL
+TRecInit   == (IsEv("bsend.init") \/ IsEv("cbsend.init")) /\ RecInit(E.a, E.t, E.v) /\ KeepM /\ KeepL
+TProxy     == (IsEv("sync.proxy") \/ IsEv("obo.proxy")) /\ KeepM /\ KeepL
               /\ lastRan[E.t] # 0 /\ ProxyBegin(E.t, E.b, ran[lastRan[E.t]].i)
-              /\ rec[E.b].kind = (IF Tr[l].e = "obo.proxy" THEN "obo" ELSE rec[E.b].kind)
+              /\ (Tr[l].e = "obo.proxy" => rec[E.b].kind = "obo")
               /\ (Tr[l].e = "sync.proxy" => rec[E.b].kind \in {"sync", "cb"})
-TOboCbDone == IsEv("obo.cbdone") /\ OboCbDone(E.t, E.b) /\ KeepM
-TBcbBegin  == IsEv("bcb.begin") /\ UCbBegin(E.t, E.arg, E.m) /\ KeepM
+TOboCbDone == IsEv("obo.cbdone") /\ OboCbDone(E.t, E.b) /\ KeepM /\ KeepL
+TBcbBegin  == IsEv("bcb.begin") /\ UCbBegin(E.t, E.arg, E.m) /\ KeepM /\ KeepL /\ PoolAlive
               /\ (E.cur # -1 => E.cur = E.t)
-TBcbEnd    == IsEv("bcb.end") /\ UCbEnd(E.t, E.arg, E.m) /\ KeepM
-TDec       == IsEv("dec.locked") /\ Dec(E.t, E.a, E.v) /\ KeepM
-TWait      == (IsEv("bsend.selfdec") \/ IsEv("bsend.wait")) /\ WaitRead(E.t, E.a, E.v) /\ KeepM
-TSyncLeave == IsEv("bsend.return") /\ SyncLeave(E.t, E.a) /\ KeepM
-TRetB      == IsEv("ret.bsend") /\ RetBsend(E.t, E.m, E.rc, E.sent, E.err) /\ KeepM
-TDonePost  == (IsEv("dec.postdone") \/ IsEv("obo.finish")) /\ DonePost(E.t, IF Tr[l].e = "dec.postdone" THEN E.a ELSE E.b) /\ KeepM
-TDoneBegin == IsEv("done.begin") /\ DoneBegin(E.t, E.b) /\ KeepM
-TUDone     == IsEv("done") /\ (UDone(E.cur, E.arg, E.m, E.sent, E.err) \/ UDonePlain(E.cur, E.arg, E.m, E.sent, E.err)) /\ KeepM
-TDoneFree  == IsEv("done.free") /\ DoneFree(E.t, E.b) /\ KeepM
-TRetCb     == IsEv("ret.cbsend") /\ RetCbsend(E.t, E.m, E.rc) /\ KeepM
+TBcbEnd    == IsEv("bcb.end") /\ UCbEnd(E.t, E.arg, E.m) /\ KeepM /\ KeepL
+TDec       == IsEv("dec.locked") /\ Dec(E.t, E.a, E.v) /\ KeepM /\ KeepL
+TWait      == (IsEv("bsend.selfdec") \/ IsEv("bsend.wait")) /\ WaitRead(E.t, E.a, E.v) /\ KeepM /\ KeepL
+TSyncLeave == IsEv("bsend.return") /\ SyncLeave(E.t, E.a) /\ KeepM /\ KeepL
+TRetB      == IsEv("ret.bsend") /\ RetBsend(E.t, E.m, E.rc, E.sent, E.err) /\ KeepM /\ KeepL
+TDonePost  == (IsEv("dec.postdone") \/ IsEv("obo.finish")) /\ KeepM /\ KeepL
+              /\ DonePost(E.t, IF Tr[l].e = "dec.postdone" THEN E.a ELSE E.b)
+TDoneBegin == IsEv("done.begin") /\ DoneBegin(E.t, E.b) /\ KeepM /\ KeepL
+TUDone     == IsEv("done") /\ KeepM /\ KeepL /\ PoolAlive
+              /\ (UDone(E.cur, E.arg, E.m, E.sent, E.err) \/ UDonePlain(E.cur, E.arg, E.m, E.sent, E.err))
+TDoneFree  == IsEv("done.free") /\ DoneFree(E.t, E.b) /\ KeepM /\ KeepL
+TRetCb     == IsEv("ret.cbsend") /\ RetCbsend(E.t, E.m, E.rc) /\ KeepM /\ KeepL
+
+(* ---- life cycle (TpLife) ---- *)
+KeepMB == KeepM /\ KeepB
+SetT(t, s) == tstate' = [tstate EXCEPT ![t] = s] /\ UNCHANGED <<wopen, inst, pipe, batch, ran, ret, lastRan, ucb>> /\ KeepB
+TCallCreate == IsEv("call.create") /\ CallCreate /\ KeepMB
+THookStart  == IsEv("hook.start") /\ HookStart(E.a) /\ KeepMB
+THookStop   == IsEv("hook.stop") /\ HookStop(E.a) /\ KeepMB
+TRetCreate  == IsEv("ret.create") /\ RetCreate(E.rc, E.mem, E.fds, E.thr) /\ KeepMB
+TCallTC     == IsEv("call.threads_create") /\ CallTCreate /\ KeepMB
+TRetTC      == IsEv("ret.threads_create") /\ RetTCreate(E.rc) /\ KeepMB
+TStarting   == IsEv("tcreate.starting") /\ Starting(E.b) /\ SetT(E.b, "STARTING")
+TStartFail  == IsEv("tcreate.failed") /\ StartFailed(E.b) /\ SetT(E.b, "STOP")
+TProc       == \E w \in {"proc.enter", "proc.running", "proc.onstart", "proc.onstop", "proc.ptid0", "proc.stop", "proc.exit"} :
+                 /\ IsEv(w) /\ ProcStep(E.a, w)
+                 /\ IF w = "proc.running" THEN SetT(E.a, "RUNNING")
+                    ELSE IF w = "proc.stop" THEN SetT(E.a, "STOP") ELSE KeepMB
+TShutCb     == IsEv("shutdown.cb") /\ SetT(E.a, "STOPING") /\ KeepL
+TShutSet    == IsEv("shutdown.set") /\ ShutdownSet(E.v) /\ SetT(PVT, "STOP")
+TPvtRun     == IsEv("create.pvt_running") /\ SetT(PVT, "RUNNING") /\ KeepL
+TJoin0      == IsEv("sys.join0") /\ Join0 /\ KeepMB
+TJoined     == IsEv("wait.joined") /\ Joined(E.b, E.v) /\ KeepMB
+TDestroyFree == IsEv("destroy.free") /\ DestroyFree /\ KeepMB
+TRetDestroy == IsEv("ret.destroy") /\ RetDestroy(E.rc, E.mem, E.fds, E.thr) /\ KeepMB
+TRetWait    == IsEv("ret.shutdown_wait") /\ RetGuarded(E.t, E.rc) /\ KeepMB
+TClose      == IsEv("sys.close") /\ KeepL /\ KeepB /\ Keep
+               /\ wopen' = [wopen EXCEPT ![E.pipe] = FALSE]
+               /\ UNCHANGED <<tstate, inst, pipe, batch, ran, ret>>
+TCrash      == IsEv("Crash") /\ Crashed(E.t) /\ KeepMB
+THang       == IsEv("Hang") /\ Hung(E.where) /\ KeepMB
 
 TNext == \/ TEnter \/ TDirect \/ TRunning \/ TNotRun \/ TWrite \/ TReturn
          \/ TRead \/ TRun \/ TUserCb \/ TQuiesce \/ TReset
-         \/ TCallB \/ TCallCb \/ TRecInit \/ TProxy \/ TBcbBegin \/ TBcbEnd \/ TDec \/ TWait \/ TSyncLeave
-         \/ TOboCbDone \/ TRetB \/ TDonePost \/ TDoneBegin \/ TUDone \/ TDoneFree \/ TRetCb
+         \/ TCallB \/ TCallCb \/ TRecInit \/ TProxy \/ TOboCbDone \/ TBcbBegin \/ TBcbEnd \/ TDec \/ TWait \/ TSyncLeave
+         \/ TRetB \/ TDonePost \/ TDoneBegin \/ TUDone \/ TDoneFree \/ TRetCb
+         \/ TCallCreate \/ THookStart \/ THookStop \/ TRetCreate \/ TStarting \/ TStartFail \/ TProc \/ TShutCb
+         \/ TShutSet \/ TPvtRun \/ TJoin0 \/ TJoined \/ TDestroyFree \/ TRetDestroy \/ TRetWait \/ TClose
+         \/ TCrash \/ THang \/ TCallTC \/ TRetTC
 TSpec == TInit /\ [][TNext]_tvars
 
 Accepted == IF TLCGet("stats").diameter - 1 = Len(Tr) THEN TRUE
